@@ -15,6 +15,17 @@ def make_problem(r, degenerate=False):
     C = int(r.randint(1, 4))
     centres = r.normal(size=(C, d)) * 3
     X = centres[r.randint(0, C, size=n)] + r.normal(size=(n, d)) * r.uniform(0.3, 1.5)
+    if degenerate and r.rand() < 0.25:
+        # many features and a block of identical rows: one component collapses with every variance at its floor
+        d = int(r.randint(22, 40))
+        C = 2
+        n = int(r.randint(40, 90))
+        spread = r.normal(size=(n // 2, d))
+        dup = np.repeat(r.normal(size=(1, d)) * 3 + 5, n - n // 2, axis=0)
+        X = np.vstack([spread, dup])
+        init = {"weights": np.array([0.5, 0.5]), "means": np.vstack([spread.mean(axis=0), dup[0] + 0.01]),
+                "variances": np.ones((2, d))}
+        return X, init
     if degenerate:
         mode = r.randint(0, 4)
         if mode == 0:
